@@ -361,26 +361,26 @@ theorem exrel_ok {t : Bool} {v v' : GoVal} (h : RepEq false v v') :
 
 namespace ArrF
 
-theorem firstF_eq (xs : List GoVal) : firstF xs = xs.head?.getD .nil := by cases xs <;> rfl
+theorem firstF_head (xs : List GoVal) : firstF xs = xs.head?.getD .nil := by cases xs <;> rfl
 
-theorem lastF_eq : ∀ xs : List GoVal, lastF xs = xs.getLast?.getD .nil
+theorem lastF_getLast : ∀ xs : List GoVal, lastF xs = xs.getLast?.getD .nil
   | [] => rfl
   | [x] => rfl
-  | x :: y :: r => by rw [lastF, lastF_eq (y :: r)]; simp [List.getLast?_cons_cons]
+  | x :: y :: r => by rw [lastF, lastF_getLast (y :: r)]; simp [List.getLast?_cons_cons]
 
 theorem first_respects (t : Bool) : ImplRespects t [.val .anys] (eager first) := by
   intro cs cs' h
   obtain ⟨ys, ys', rfl, rfl, hn⟩ := argsRel_anys1 h
-  simp only [eager, FilterImpl.ofEager, FilterImpl.ofEager.collect, Res.bind, first, ret, firstF_eq]
+  simp only [eager, FilterImpl.ofEager, FilterImpl.ofEager.collect, Res.bind, first, ret, firstF_head]
   exact exrel_ok (normList_head hn)
 
 theorem last_respects (t : Bool) : ImplRespects t [.val .anys] (eager last) := by
   intro cs cs' h
   obtain ⟨ys, ys', rfl, rfl, hn⟩ := argsRel_anys1 h
-  simp only [eager, FilterImpl.ofEager, FilterImpl.ofEager.collect, Res.bind, last, ret, lastF_eq]
+  simp only [eager, FilterImpl.ofEager, FilterImpl.ofEager.collect, Res.bind, last, ret, lastF_getLast]
   exact exrel_ok (normList_getLast hn)
 
-theorem reverseF_eq (xs : List GoVal) : reverseF xs = xs.reverse := by
+theorem reverseF_rev (xs : List GoVal) : reverseF xs = xs.reverse := by
   unfold reverseF
   have : ∀ acc : List GoVal, xs.foldl (fun acc x => x :: acc) acc = xs.reverse ++ acc := by
     induction xs with
@@ -395,7 +395,7 @@ theorem slice_any_rel {ys ys' : List GoVal} (h : normList false ys = normList fa
 theorem reverse_respects (t : Bool) : ImplRespects t [.val .anys] (eager reverse) := by
   intro cs cs' h
   obtain ⟨ys, ys', rfl, rfl, hn⟩ := argsRel_anys1 h
-  simp only [eager, FilterImpl.ofEager, FilterImpl.ofEager.collect, Res.bind, reverse, ret, reverseF_eq]
+  simp only [eager, FilterImpl.ofEager, FilterImpl.ofEager.collect, Res.bind, reverse, ret, reverseF_rev]
   refine exrel_ok (slice_any_rel ?_)
   simp only [normList_eq_map, List.map_reverse] at hn ⊢
   rw [hn]
@@ -709,3 +709,47 @@ theorem lookupImpl_mem {tbl : List (Bytes × FilterImpl)} {name : Bytes} {f : Fi
     equivalence (`d = false`), for every name (registered or not) -/
 theorem filterRespects_std (t : Bool) (name : Bytes) (h : name ∉ openFilters) : FilterRespects t name :=
   filterRespects_of_impl name (fun sg f hs hf => goodEntry_std t (name, f) (lookupImpl_mem hf) h sg hs)
+
+/-! ## The standard configuration with a chosen set of filters -/
+
+/-- the standard comparison and filter layer of an engine on which only the filters satisfying
+    `allowed` are registered (any other name is an undefined filter, as on the real engine) -/
+def stdPrimsOnly (allowed : Bytes → Bool) : Prims :=
+  { stdPrims with
+    hasFilter := fun n => stdPrims.hasFilter n && allowed n,
+    applyFilter := fun n r as => if allowed n then stdPrims.applyFilter n r as else .err (.undefinedFilter n) }
+
+theorem stdPrimsOnly_all : stdPrimsOnly (fun _ => true) = stdPrims := by
+  simp [stdPrimsOnly]
+
+/-- the standard comparisons respect the equivalence, and so does every allowed filter, given
+    that the allowed ones among `sort`, `uniq`, `sort_natural` do -/
+theorem stdPrimsOnly_respects (allowed : Bytes → Bool)
+    (hopen : ∀ n, n ∈ openFilters → allowed n = true → FilterRespects true n) :
+    PrimsRespect true false (stdPrimsOnly allowed) :=
+  { equal := fun a a' b b' ha hb => RRel.of_eq (fun _ => rfl) (Cmp.opEq_prep_vrel ha hb),
+    less := fun a a' b b' ha hb => RRel.of_eq (fun _ => rfl) (Cmp.opLt_prep_vrel ha hb),
+    contains := fun a a' b b' ha hb => Cmp.opContains_prep_vrel ha hb,
+    equalFn := fun a a' b b' ha hb => RRel.of_eq (fun _ => rfl) (Cmp.equal_prep_repEq ha.2.2 hb.2.2),
+    applyFilter := fun name r r' as as' hr has => by
+      show RRel true (VRel false) (if allowed name then _ else _) (if allowed name then _ else _)
+      cases ha : allowed name with
+      | false => simp [RRel]
+      | true =>
+        simp only [if_true]
+        by_cases hn : name ∈ openFilters
+        · exact hopen name hn ha r r' as as' hr has
+        · exact filterRespects_std true name hn r r' as as' hr has }
+
+/-- the engine without `sort`, `uniq` and `sort_natural` -/
+def coreFilters (n : Bytes) : Bool := !openFilters.contains n
+
+/-- the length of an array result (for the examples of `Proofs/C18.lean`) -/
+def lenOfRes : Res Cause GoVal → Nat
+  | .ok (.slice _ xs) => xs.length
+  | _ => 0
+
+/-- the text of a string result (for the examples of `Proofs/C18.lean`) -/
+def strOfRes : Res Cause GoVal → Bytes
+  | .ok (.str s) => s
+  | _ => []
